@@ -251,12 +251,50 @@ class Runner:
 
     def singles(self, hists):
         """Each history alone (identifier x0).  -> [("reject", msg) | ("ok", table) | ("crash", msg)]"""
+        if len(hists) > 400:
+            return self.singles_sh(hists)
+
         def one(h):
             st, msg, out = self.compile(render(h, "x0"))
             if st == "ok":
                 return ("ok", tables(out).get("x0", EMPTY))
             return (st, msg)
         return list(self.pool.map(one, hists, chunksize=64))
+
+    def singles_sh(self, hists):
+        """The same through `xargs -P`: one compiler process per history, spawned by small shells
+        (forking from the Python process is the bottleneck otherwise)."""
+        self.nshdir = getattr(self, "nshdir", 0) + 1
+        d = os.path.join(self.ck.scratch(), "single%d" % self.nshdir)
+        os.makedirs(d)
+        for i, h in enumerate(hists):
+            with open(os.path.join(d, "%d.c" % i), "w") as f:
+                f.write(render(h, "x0"))
+        script = 'for f; do "$CC" "$f" > "$f.out" 2> "$f.err"; echo "$f $?"; done'
+        names = "".join(os.path.join(d, "%d.c" % i) + "\n" for i in range(len(hists)))
+        r = subprocess.run(["xargs", "-P", str(common.NPROC), "-n", "64", "sh", "-c", script, "sh"],
+                           input=names, stdout=subprocess.PIPE, stderr=subprocess.PIPE, text=True,
+                           env=dict(os.environ, CC=self.cc))
+        rc = {}
+        for ln in r.stdout.splitlines():
+            f, c = ln.rsplit(" ", 1)
+            rc[f] = int(c)
+        if len(rc) != len(hists):
+            raise Broken("xargs run lost results: %d of %d (%s)" % (len(rc), len(hists), r.stderr[-300:]))
+        self.ncompile += len(hists)
+        res = []
+        for i in range(len(hists)):
+            f = os.path.join(d, "%d.c" % i)
+            c = rc[f]
+            if c == 0:
+                res.append(("ok", tables(open(f + ".out").read()).get("x0", EMPTY)))
+            elif c in (1, 2):
+                res.append(("reject", open(f + ".err").read().strip()[-300:]))
+            else:
+                res.append(("crash", "status %d: %s" % (c, open(f + ".err").read()[-300:])))
+        import shutil
+        shutil.rmtree(d, True)
+        return res
 
     def batched(self, hists, size=300):
         """Histories expected to be accepted, many per unit; a failing unit is bisected."""
@@ -385,22 +423,46 @@ def run_exhaustive(ck, lean, runner, judge, name, F, maxlen, sample_rest, keep):
 
 
 # ----------------------------------------------------------------------------- stream 2: random units
-def gen_unit(ck, lean, nid):
+def pick_form(rng, scope, prof):
+    """A form for scope tag `scope`; mostly consistent with the identifier's profile
+    (kind, internal?, thread-local?, label), sometimes arbitrary."""
+    kind, intern, thread, label = prof
+    if rng.random() < 0.12:
+        f = rng.choice(forms(scope))
+        return f + rng.choice(["", "", "@a", "@b"])
+    if kind == "o":
+        if scope == "F":
+            st = rng.choice(["s", "s", "e"] if intern else ["n", "n", "e"])
+        else:
+            st = rng.choice(["e", "e", "e", "s", "n"])
+        st = {"n": "t", "s": "u", "e": "v"}[st] if thread and not (scope != "F" and st == "n") else st
+        d = "1" if (scope == "F" or st in "nsu") and rng.random() < 0.25 else "0"
+    else:
+        if scope == "F":
+            st = rng.choice(["s", "k", "e"] if intern else ["n", "n", "e", "i", "j"])
+            d = "1" if rng.random() < 0.25 else "0"
+        else:
+            st = rng.choice(["n", "e", "i"])
+            d = "0"
+    lab = "@" + label if label and rng.random() < 0.8 and not (kind == "f" and d == "1") else ""
+    return scope + kind + st + d + lab
+
+
+def gen_unit(ck, lean, nid, want_bad):
     """A unit with several identifiers.  Layout: items are file-scope declarations or function bodies;
     a body is a chain of nested blocks; an identifier's declarations inside one body appear at
     non-decreasing depth (that is what `block`/`nested` in its history mean)."""
     rng = ck.rng
     idents = ["x%d" % (nid + i) for i in range(rng.randint(2, 5))]
-    F_file = forms("F", ("", "", "", "@a", "@b"))
-    F_blk = forms("B", ("", "", "", "", "@a"))
+    prof = {i: (rng.choice("oof"), rng.random() < 0.4, rng.random() < 0.25,
+                rng.choice([None, None, None, "a", "b"])) for i in idents}
     hist = {i: [] for i in idents}
     items = []      # ("file", ident, form, type) | ("body", [[(ident, form, type)] per level])
-    want_bad = rng.random() < 0.15
     typedefs = ["T%d" % nid]
-    for _ in range(rng.randint(2, 7)):
-        if rng.random() < 0.5:
+    for _ in range(rng.randint(2, 8)):
+        if rng.random() < 0.55:
             i = rng.choice(idents)
-            f = rng.choice(F_file)
+            f = pick_form(rng, "F", prof[i])
             items.append(("file", i, f, rng.choice(["int", "int", typedefs[0]])))
             hist[i].append(f)
         else:
@@ -415,19 +477,18 @@ def gen_unit(ck, lean, nid):
                 i = rng.choice(free)
                 lo = last.get(i, 0)
                 lv = rng.randint(lo, len(levels) - 1)
-                f = rng.choice(F_blk)
                 tag = "B" if (i not in last or lv == last[i]) else "N"
-                f = tag + f[1:]
+                f = tag + pick_form(rng, "B", prof[i])[1:]
                 last[i] = lv
                 levels[lv].append((i, f, rng.choice(["int", "int", typedefs[0]])))
                 hist[i].append(f)
             items.append(("body", levels))
     hs = {i: tuple(h) for i, h in hist.items() if h}
+    if not hs:
+        return None
     ans = dict(zip(hs, lean.ask(list(hs.values()))))
     bad = [i for i, a in ans.items() if a[0].startswith("error")]
-    if bad and not want_bad:
-        return None
-    if want_bad and not bad:
+    if bool(bad) != want_bad:
         return None
     # render
     out = ["typedef int %s;" % typedefs[0]]
@@ -441,7 +502,7 @@ def gen_unit(ck, lean, nid):
         else:
             nb += 1
             out.append("void u_%s_%d(void){" % (idents[0], nb))
-            # a local of another name shadowing nothing relevant, and a shadowing typedef'd local
+            # an unrelated local of typedef'd type
             out.append("%s sh%d = 0; (void)sh%d;" % (typedefs[0], nid, nid))
             for lv, decls in enumerate(it[1]):
                 if lv:
@@ -460,11 +521,13 @@ def run_random(ck, lean, runner, judge, n):
     done = bad_units = 0
     tries = 0
     sizes = {}
-    while done < n and tries < 20 * n:
+    want_bad = False
+    while done < n and tries < 40 * n:
         tries += 1
-        g = gen_unit(ck, lean, 1000 * tries)
+        g = gen_unit(ck, lean, 1000 * tries, want_bad)
         if g is None:
             continue
+        want_bad = ck.rng.random() < 0.15
         text, hs, ans = g
         done += 1
         st, msg, out = runner.compile(text)
